@@ -27,7 +27,7 @@ class SetEncoder(encoder.SetEncoder):
 
         if compType.typeId == univ.Choice.typeId and not compType.tagSet:
             if asn1Spec is None:
-                return component.getComponent().tagSet
+                return component.getComponent().tagSet[-1:]
             else:
                 # TODO: move out of sorting key function
                 names = [namedType.name for namedType in asn1Spec.componentType.namedTypes
@@ -37,10 +37,11 @@ class SetEncoder(encoder.SetEncoder):
                         '%s components for Choice at %r' % (len(names) and 'Multiple ' or 'None ', component))
 
                 # TODO: support nested CHOICE ordering
-                return asn1Spec[names[0]].tagSet
+                return asn1Spec[names[0]].tagSet[-1:]
 
         else:
-            return compType.tagSet
+            # order by the outermost tag (X.690 8.12, 10.3)
+            return compType.tagSet[-1:]
 
 
 TAG_MAP = encoder.TAG_MAP.copy()
